@@ -68,6 +68,9 @@ func class(s limgen.Sample) string {
 }
 
 func TestCheck(t *testing.T) {
+	if limgen.LargeTables() {
+		rt.Count("shards_started_with_enlarged_lookup_tables", 1)
+	}
 	rt.Cases(20000, 3000000, func(idx int64) {
 		r := rt.CaseRand(4, idx)
 		rt.Case()
@@ -85,15 +88,28 @@ func TestCheck(t *testing.T) {
 		hostile := r.IntN(4) != 0
 		base := int64(1) << uint(r.IntN(30))
 		sawZero, sawDropOnly, changes := false, 0, 0
+		sawOverload := false
 		prev := l.EstimatedLimit()
+		overload, stairRTT := 0, int64(1000)
 		for i := 0; i < n; i++ {
 			if r.IntN(40) == 0 { // new phase
 				pDrop = []float64{0, 0.05, 0.5, 1}[r.IntN(4)]
 				hostile = r.IntN(4) != 0
+				if r.IntN(3) == 0 && n < 900 { // sustained overload: saturated, the latency climbs a staircase (x4 every ~25 samples)
+					overload, stairRTT = 100+r.IntN(200), 1000+r.Int64N(100000)
+					n += overload
+				}
 			}
 			est := l.EstimatedLimit()
 			var s limgen.Sample
-			if hostile {
+			if overload > 0 {
+				overload--
+				if overload%25 == 0 && stairRTT < 1<<55 {
+					stairRTT *= 4
+				}
+				s = limgen.Sample{RTT: stairRTT + r.Int64N(stairRTT/8+1), InFlight: est + r.IntN(3)}
+				sawOverload = true
+			} else if hostile {
 				s = limgen.Hostile(r, est, limgen.Baseline(inner), pDrop)
 			} else {
 				s = limgen.Benign(r, est, base, pDrop)
@@ -155,6 +171,9 @@ func TestCheck(t *testing.T) {
 		rt.Count("cases/"+kind+"/"+w, 1)
 		if sawZero {
 			rt.Count("cases_with_rtt_zero", 1)
+		}
+		if sawOverload {
+			rt.Count("cases_with_sustained_overload_phase", 1)
 		}
 		if sawDropOnly > 20 {
 			rt.Count("cases_with_drop_only_phase", 1)
